@@ -441,10 +441,18 @@ func (ex *Exec) mergeVals(conds []Term, vals []Val, what string) Val {
 		}
 		for _, v := range vals {
 			if !v.IsPtr || !sameLV(v.P, first.P) {
-				ex.fail("merge of different static pointers for %s", what)
+				return Val{Poison: "merge of different static pointers for " + what}
 			}
 		}
 		return first
+	}
+	for _, v := range vals {
+		if v.Poison != "" {
+			return v
+		}
+		if v.IsPtr || v.Fn != nil || len(v.Tup) > 0 || v.T.Sort == nil {
+			return Val{Poison: "merge of values of different kinds for " + what}
+		}
 	}
 	// data: ite chain; views lose their origin unless identical
 	cur := ex.curVal(vals[len(vals)-1], nil)
@@ -452,7 +460,7 @@ func (ex *Exec) mergeVals(conds []Term, vals []Val, what string) Val {
 	for i := len(vals) - 2; i >= 0; i-- {
 		vi := vals[i].T
 		if vi.Sort != r.Sort {
-			ex.fail("merge of different sorts for %s: %s vs %s", what, vi.Sort, r.Sort)
+			return Val{Poison: fmt.Sprintf("merge of different sorts for %s: %s vs %s", what, vi.Sort, r.Sort)}
 		}
 		r = Ite(conds[i], vi, r)
 	}
